@@ -3,10 +3,47 @@
    sequence of requests, the correspondence with the Router.v model (repaired worker rule, the
    handler outcomes being the observed ones: the theorems hold for every handler), and the
    property predicates evaluated on the observations alone. *)
+From Coq Require Import ZArith.
 From IweV Require Import Str Arena Harness Router.
+From IweV Require Export Ast.
+From IweV Require Import Text RelPath Project Library Index Paths TreeOps Actions ActionsTotal Server.
+From IweV Require Rename Url Check_C08 Check_C13.
+From IweV Require Export Pos.
 Local Open Scope string_scope.
 Local Open Scope list_scope.
 Local Open Scope N_scope.
+
+(* ---- the request as the handler model (Server.v) sees it ---- *)
+
+(* fuzzy-score oracle of a workspace/symbol query: the non-zero SkimMatcherV2 scores by search text *)
+Definition zs (neg : bool) (n : N) : Z := if neg then Z.opp (Z.of_N n) else Z.of_N n.
+Definition score_of (tbl : list (string * Z)) (s : string) : Z :=
+  match alookup s tbl with Some z => z | None => 0%Z end.
+
+Inductive mreqk :=
+| QReq (r : Server.request)   (* the handler runs on these parameters: key = `uri.to_key(base_path)` as the
+                                 server maps it, line / character / node id (above 10000: 10000), kinds
+                                 by provider, the new name, the query's scores *)
+| QIllTyped                   (* the parameters do not deserialise: no handler runs, the router answers
+                                 with an error (router.rs:265) *)
+| QOutside.                   (* shutdown, workspace/executeCommand: outside Server.handle's modelled part *)
+
+(* what the answer carries, cheaply, per method *)
+Inductive osum :=
+| ONone                                                   (* an error answer, or nothing kept *)
+| OCount (n : nat)                                        (* inlineValues: length of the array *)
+| OHints (l : list (string * nat))                        (* label, line *)
+| OSymbols (l : list (string * string * nat))             (* name, uri, start line *)
+| ODefinition (o : option string)                         (* the location's uri; None: `[]` *)
+| OWsSymbols (l : list (string * bool * string * nat))    (* name, kind = NAMESPACE, uri, start line *)
+| OCompletion (l : list (string * string))                (* label, inserted text *)
+| OSame (b : bool)                                        (* completionItem/resolve: result = parameters *)
+| OActions (l : list (nat * string * nat))                (* kind (Actions.kind_of_nat), title, data *)
+| OEdit (l : list Server.dchange)                         (* codeAction/resolve: the edit's operations *)
+| OText (t : string)                                      (* formatting: the new text *)
+| OLocations (l : list (string * lrange))                 (* uri, start / end line *)
+| OPrepare (o : option (IweV.Pos.irange * string))        (* range, placeholder *)
+| ORename (r : Rename.rresult).
 
 (* what was observed for one request *)
 Record robs := RO {
@@ -14,24 +51,34 @@ Record robs := RO {
   ro_kind : N;            (* 0 any other method, 1 workspace/executeCommand, 2 shutdown *)
   ro_panicked : bool;     (* a panic was raised on this request's worker thread (panic hook) *)
   ro_resps : list N;      (* the responses carrying this id: 0 result null, 1 result, 2 error *)
-  ro_done : bool          (* the worker thread ended (dropped its clone) within the time limit *)
+  ro_done : bool;         (* the worker thread ended (dropped its clone) within the time limit *)
+  ro_req : mreqk;
+  ro_sum : osum           (* of the one response, when there is exactly one *)
 }.
 
 Inductive item :=
-| IReq (o : robs) (probe : robs) (same : bool)
-    (* one request, then the liveness probe (workspace/symbol ""); same: the probe's answer is
-       the one given before the request *)
-| IBurst (os : list robs) (probe : robs) (same : bool)     (* requests in flight together *)
-| INote (hostile : bool) (panicked : bool).
+| IReq (o : robs) (probe probe2 : robs) (same : bool)
+    (* one request, then the liveness probes (workspace/symbol "", code actions on note 2 line 0,
+       in flight together); same: the probes' answers are the ones given before the request *)
+| IBurst (os : list robs) (probe probe2 : robs) (same : bool)     (* requests in flight together *)
+| INote (hostile : bool) (panicked : bool) (n : option Server.note) (tables : list (string * list string)).
     (* a notification sent while no request is alive; hostile: ill-typed parameters;
-       panicked: the loop thread unwound out of on_notification *)
+       panicked: the loop thread unwound out of on_notification; n: the notification as the model
+       sees it (the new text read by the real reader), None: not a didChange / didSave or
+       parameters that do not deserialise; tables: the table oracle of the state after it *)
+
+(* one note of the start state: name in the State map, front matter, the real reader's blocks and
+   positioned blocks *)
+Record snote := SN { sn_name : string; sn_meta : option string; sn_blocks : list dblock; sn_doc : Server.doc }.
 
 Record case := Case {
   c_items : list item;
   c_exit : bool;          (* `exit` is sent at the end (else the client just goes away) *)
   o_edits : N;            (* workspace/applyEdit requests received from the server *)
   o_stray : N;            (* responses whose id was never sent *)
-  o_loop : N              (* how `run` ended: 0 Err, 1 Ok, 2 still running, 3 the thread panicked *)
+  o_loop : N;             (* how `run` ended: 0 Err, 1 Ok, 2 still running, 3 the thread panicked *)
+  c_notes : list snote;   (* the library the server is started on, in import order *)
+  c_tables : list (string * list string)   (* table oracle of the start state *)
 }.
 
 (* ---- the model instance: the handler does what was observed ---- *)
@@ -50,9 +97,9 @@ Definition mreq (o : robs) : msg unit mreq_t :=
 
 Definition item_msgs (i : item) : list (msg unit mreq_t) :=
   match i with
-  | IReq o p _ => [mreq o; mreq p]
-  | IBurst os p _ => map mreq os ++ [mreq p]
-  | INote hostile _ => [if hostile then MOther else MNote tt]
+  | IReq o p p2 _ => [mreq o; mreq p; mreq p2]
+  | IBurst os p p2 _ => map mreq os ++ [mreq p; mreq p2]
+  | INote hostile _ _ _ => [if hostile then MOther else MNote tt]
   end.
 
 Definition case_msgs (c : case) : list (msg unit mreq_t) :=
@@ -64,12 +111,14 @@ Definition worker_run (p : nat) : list label := [WStart p; WCompute p; WRespond 
 Fixpoint items_sched (pos : nat) (l : list item) : list label :=
   match l with
   | [] => []
-  | IReq _ _ _ :: r => LoopTake :: worker_run pos ++ LoopTake :: worker_run (S pos) ++ items_sched (S (S pos)) r
-  | IBurst os _ _ :: r =>
+  | IReq _ _ _ _ :: r =>
+      LoopTake :: worker_run pos ++ LoopTake :: LoopTake :: worker_run (S pos) ++ worker_run (S (S pos))
+      ++ items_sched (S (S (S pos))) r
+  | IBurst os _ _ _ :: r =>
       let n := length os in
       repeat LoopTake n ++ flat_map worker_run (seq pos n)
-      ++ LoopTake :: worker_run (pos + n) ++ items_sched (S (pos + n)) r
-  | INote _ _ :: r => LoopTake :: items_sched (S pos) r
+      ++ LoopTake :: LoopTake :: worker_run (pos + n) ++ worker_run (S (pos + n)) ++ items_sched (S (S (pos + n))) r
+  | INote _ _ _ _ :: r => LoopTake :: items_sched (S pos) r
   end.
 
 Definition case_sched (c : case) : list label :=
@@ -88,9 +137,9 @@ Definition edits_of (o : list (out N)) : N :=
   N.of_nat (length (filter (fun x => match x with ApplyEdit _ _ => true | _ => false end) o)).
 
 Definition item_obs (i : item) : list robs :=
-  match i with IReq o p _ => [o; p] | IBurst os p _ => os ++ [p] | INote _ _ => [] end.
+  match i with IReq o p p2 _ => [o; p; p2] | IBurst os p p2 _ => os ++ [p; p2] | INote _ _ _ _ => [] end.
 Definition item_probe (i : item) : list (robs * bool) :=
-  match i with IReq _ p s => [(p, s)] | IBurst _ p s => [(p, s)] | INote _ _ => [] end.
+  match i with IReq _ p _ s => [(p, s)] | IBurst _ p _ s => [(p, s)] | INote _ _ _ _ => [] end.
 
 Definition nlist_eqb := list_eqb N.eqb.
 
@@ -104,11 +153,293 @@ Definition cls_panic_lost (o : robs) : bool := ro_panicked o && nlist_eqb (ro_re
 Definition cls_command_unanswered (o : robs) : bool :=
   N.eqb (ro_kind o) 1 && negb (ro_panicked o) && nlist_eqb (ro_resps o) [] && ro_done o.
 
+
+(* ================================================================================================ *)
+(* the tie with the handler model (Server.v): state by state, request by request                     *)
+(* ================================================================================================ *)
+
+Local Close Scope N_scope.
+
+(* the configuration of the run: /repo's tree (rename and position repairs as Check_C08 / Check_C13
+   record them), library directory /base, LspClient::Unknown, Configuration::default()
+   (prompt_key_prefix = "prompt", no LLM action), the table oracle of the state;
+   executeCommand is outside *)
+Definition mk_cf (tables : list (string * list string)) : config :=
+  CF (Opts "") (fun k => match alookup k tables with Some l => l | None => [] end)
+     Check_C08.impl_fixes Check_C13.C13_variant "/base" false (Some "prompt")
+     (fun _ _ => Panic "executeCommand is not modelled").
+
+(* the notes of the start state have pairwise distinct keys (hypothesis of the ServerFacts theorems) *)
+Fixpoint nodup_strb (l : list string) : bool :=
+  match l with [] => true | x :: r => negb (existsb (String.eqb x) r) && nodup_strb r end.
+Definition start_notes (c : case) : list (string * option string * list dblock) :=
+  map (fun n => (sn_name n, sn_meta n, sn_blocks n)) (c_notes c).
+Definition distinct_namesb (c : case) : bool :=
+  nodup_strb (map (fun n => key_from_file_name (fst (fst n))) (start_notes c)).
+
+Definition start_state (c : case) : res sstate :=
+  server_new (start_notes c)
+             (map (fun n => (key_from_file_name (sn_name n), sn_doc n)) (c_notes c)).
+
+(* the numbers the harness caps (node ids) stay meaningful: the arena is smaller than the cap *)
+Definition cap : nat := 10000.
+Definition state_small (sv : sstate) : bool := Nat.ltb (length (gr_arena (gs_graph (ss_gs sv)))) cap.
+
+(* ---- equalities ---- *)
+Definition pair_eqb {A B} (ea : A -> A -> bool) (eb : B -> B -> bool) (x y : A * B) : bool :=
+  ea (fst x) (fst y) && eb (snd x) (snd y).
+Definition lrange_eqb : lrange -> lrange -> bool := pair_eqb Nat.eqb Nat.eqb.
+Definition irange_eqb : IweV.Pos.irange -> IweV.Pos.irange -> bool := pair_eqb lrange_eqb lrange_eqb.
+
+Fixpoint remove_one {A} (eq : A -> A -> bool) (x : A) (l : list A) : option (list A) :=
+  match l with
+  | [] => None
+  | y :: r => if eq x y then Some r else match remove_one eq x r with Some r' => Some (y :: r') | None => None end
+  end.
+(* the same elements with the same multiplicities *)
+Fixpoint perm_eqb {A} (eq : A -> A -> bool) (a b : list A) : bool :=
+  match a with
+  | [] => match b with [] => true | _ => false end
+  | x :: r => match remove_one eq x b with Some b' => perm_eqb eq r b' | None => false end
+  end.
+
+Fixpoint dedup_str (l : list string) : list string :=
+  match l with
+  | [] => []
+  | x :: r => if existsb (String.eqb x) r then dedup_str r else x :: dedup_str r
+  end.
+
+Definition dchange_eqb (a b : dchange) : bool :=
+  match a, b with
+  | DDelete u, DDelete u' | DCreate u, DCreate u' => String.eqb u u'
+  | DEdit u t, DEdit u' t' => String.eqb u u' && String.eqb t t'
+  | _, _ => false
+  end.
+(* the same operation on the same file, whatever the text *)
+Definition dchange_shape_eqb (a b : dchange) : bool :=
+  match a, b with
+  | DDelete u, DDelete u' | DCreate u, DCreate u' | DEdit u _, DEdit u' _ => String.eqb u u'
+  | _, _ => false
+  end.
+
+Definition op_eqb (a b : Rename.op) : bool :=
+  match a, b with
+  | Rename.OpOverride u t, Rename.OpOverride u' t' | Rename.OpInsert u t, Rename.OpInsert u' t' =>
+      String.eqb u u' && String.eqb t t'
+  | Rename.OpDelete u, Rename.OpDelete u' | Rename.OpCreate u, Rename.OpCreate u' => String.eqb u u'
+  | _, _ => false
+  end.
+Definition rresult_eqb (a b : Rename.rresult) : bool :=
+  match a, b with
+  | Rename.RErr m, Rename.RErr m' => String.eqb m m'
+  | Rename.RNone, Rename.RNone => true
+  | Rename.REdits l, Rename.REdits l' => list_eqb op_eqb l l'
+  | _, _ => false
+  end.
+
+Definition nat_of_akind (k : akind) : nat :=
+  match k with
+  | SectionExtract => 1 | SubSectionsExtract => 2 | InlineSection => 3 | InlineQuote => 4
+  | SectionToList => 5 | ListToSections => 6 | ListChangeType => 7
+  end.
+
+(* ---- what the answers look like on the wire ---- *)
+
+(* server.rs:657-671 number_substr *)
+Definition number_substr (n : nat) : string :=
+  match n with
+  | 0 | 1 => "" | 2 => "²" | 3 => "³" | 4 => "⁴" | 5 => "⁵" | 6 => "⁶" | 7 => "⁷" | 8 => "⁸" | 9 => "⁹"
+  | _ => "+"
+  end.
+
+(* server.rs:287-343: the labels and lines of the hints; the container texts are `sorted().dedup()`:
+   compared as a multiset of the distinct ones *)
+Definition hint_labels (h : list string * nat * list (nat * nat)) : list (string * nat) :=
+  let '(c, i, b) := h in
+  map (fun t => ("↖" +++ t, 0)) (dedup_str c)
+  ++ (if Nat.ltb 0 i then [("‹" +++ dec i +++ "›", 0)] else [])
+  ++ map (fun cl => ("⎘" +++ number_substr (fst cl), snd cl)) b.
+
+Definition str_nat_eqb : string * nat -> string * nat -> bool := pair_eqb String.eqb Nat.eqb.
+
+(* completion items: the model keeps (title, inserted text), "[...]" standing for a prompt item whose
+   text holds a drawn key; on the wire the labels are "🤖 title" / "🔗 title" *)
+Definition completion_model (l : list (string * string)) : list (string * option string) :=
+  map (fun x => if String.eqb (snd x) "[...]" then ("🤖 " +++ fst x, None) else ("🔗 " +++ fst x, Some (snd x))) l.
+Definition completion_wire (l : list (string * string)) : list (string * option string) :=
+  map (fun x => if starts_with "🤖 " (fst x) then (fst x, None) else (fst x, Some (snd x))) l.
+
+(* the note a node belongs to has no table: the text rendered for an edit does not need the
+   per-note table oracle (Server.doc_change looks tables up by note, the extracted note is new) *)
+Definition no_tables_at (cf : config) (sv : sstate) (data : option nat) : bool :=
+  match data with
+  | Some id => match key_of (gs_graph (ss_gs sv)) id with
+               | Ok k => match cf_tables cf k with [] => true | _ => false end
+               | Panic _ => true
+               end
+  | None => true
+  end.
+
+(* stage (c): the content of an answered request *)
+Definition content_ok (cf : config) (sv : sstate) (r : request) (v : response) (o : osum) : bool :=
+  match v, o with
+  | VHints h, OHints l => perm_eqb str_nat_eqb (hint_labels h) l
+  | VNothing, OCount n => Nat.eqb n 0
+  | VSymbols l, OSymbols l' => list_eqb (pair_eqb (pair_eqb String.eqb String.eqb) Nat.eqb) l l'
+  | VDefinition None, ODefinition None => true
+  | VDefinition (Some (Some u)), ODefinition (Some u') => String.eqb u u'
+  | VDefinition (Some None), ODefinition (Some _) => true     (* a URL outside the modelled part of `url` *)
+  | VWorkspaceSymbols l, OWsSymbols l' =>
+      list_eqb (pair_eqb (pair_eqb (pair_eqb String.eqb Bool.eqb) String.eqb) Nat.eqb) l l'
+  | VCompletion l, OCompletion l' =>
+      perm_eqb (pair_eqb String.eqb (option_eqb String.eqb)) (completion_model l) (completion_wire l')
+  | VSame, OSame b => b
+  | VActions l, OActions l' =>
+      list_eqb (pair_eqb (pair_eqb Nat.eqb String.eqb) Nat.eqb)
+               (map (fun x => (nat_of_akind (fst (fst x)), snd (fst x), snd x)) l) l'
+  | VEdit l, OEdit l' =>
+      match r with
+      | RCodeActionResolve _ data _ =>
+          if no_tables_at cf sv data then list_eqb dchange_eqb l l' else list_eqb dchange_shape_eqb l l'
+      | _ => false
+      end
+  | VText t, OText t' => String.eqb t t'
+  | VLocations l, OLocations l' => perm_eqb (pair_eqb String.eqb lrange_eqb) l l'
+  | VPrepare p, OPrepare p' => option_eqb (pair_eqb irange_eqb String.eqb) p p'
+  | VRename x, ORename x' => rresult_eqb x x'
+  | _, _ => false
+  end.
+
+(* the classes ServerFacts proves exact (C12_key_methods_exact, resolve_panic_exact,
+   unknown_method_panics): there `may_panic` must imply the observed panic *)
+Definition exact_class (cf : config) (r : request) : bool :=
+  match r with
+  | RInlayHint _ | RFormatting _ | RCodeAction _ _ _ _ | RUnknown => true
+  | RCodeActionResolve _ _ _ => base_ok (cf_base cf)
+  | _ => false
+  end.
+
+(* per request: (a) sound, (b) exact, handle panics iff observed, (c) content, ill-typed *)
+Record tie := TIE { t_sound : bool; t_exact : bool; t_iff : bool; t_content : bool; t_ill : bool }.
+Definition tie_ok : tie := TIE true true true true true.
+
+Definition tie_req (cf : config) (sv : sstate) (o : robs) : tie :=
+  match ro_req o with
+  | QOutside => tie_ok
+  | QIllTyped =>
+      (* executeCommand unwraps the deserialisation (router.rs:185); every other method answers an error *)
+      TIE true true true true (negb (ro_panicked o) && nlist_eqb (ro_resps o) [2%N])
+  | QReq r =>
+      let mp := may_panic cf sv r in
+      let h := handle cf sv r in
+      let p := ro_panicked o in
+      TIE (implb p mp)
+          (if exact_class cf r then implb mp p else true)
+          (Bool.eqb (negb (is_ok h)) p)
+          (match h with
+           | Ok v => if p then true else content_ok cf sv r v (ro_sum o)
+           | Panic _ => true
+           end)
+          true
+  end.
+
+(* walk the items: the state changes at the notifications only *)
+Record walked := W { w_ties : list tie; w_notes_ok : bool }.
+
+Fixpoint walk (cf : config) (sv : sstate) (l : list item) : walked :=
+  match l with
+  | [] => W [] true
+  | IReq o p p2 _ :: r =>
+      let w := walk cf sv r in W (map (tie_req cf sv) [o; p; p2] ++ w_ties w) (w_notes_ok w)
+  | IBurst os p p2 _ :: r =>
+      let w := walk cf sv r in W (map (tie_req cf sv) (os ++ [p; p2]) ++ w_ties w) (w_notes_ok w)
+  | INote _ panicked n tables :: r =>
+      match n with
+      | None => walk cf sv r        (* not a modelled notification: the library does not change *)
+      | Some n =>
+          let sv' := did_change sv n in
+          (* the loop thread unwound exactly when the model's notification panics *)
+          let ok := Bool.eqb (negb (is_ok sv')) panicked in
+          let sv2 := match sv' with Ok s => s | Panic _ => sv end in
+          let w := walk (mk_cf tables) sv2 r in
+          W (w_ties w) (ok && state_small sv2 && w_notes_ok w)
+      end
+  end.
+
+(* development aid (./dbg.py C12 <case> 'Check_C12.dbg c <n>'): the n-th request with the model's values *)
+Fixpoint walk_dbg (cf : config) (sv : sstate) (l : list item)
+  : list (robs * option (bool * res response) * tie) :=
+  let one o := (o, match ro_req o with QReq r => Some (may_panic cf sv r, handle cf sv r) | _ => None end, tie_req cf sv o) in
+  match l with
+  | [] => []
+  | IReq o p p2 _ :: r => map one [o; p; p2] ++ walk_dbg cf sv r
+  | IBurst os p p2 _ :: r => map one (os ++ [p; p2]) ++ walk_dbg cf sv r
+  | INote _ _ None _ :: r => walk_dbg cf sv r
+  | INote _ _ (Some n) tables :: r =>
+      walk_dbg (mk_cf tables) (match did_change sv n with Ok s => s | Panic _ => sv end) r
+  end.
+Definition dbg (c : case) (n : nat) :=
+  match start_state c with
+  | Ok sv0 => nth_error (walk_dbg (mk_cf (c_tables c)) sv0 (c_items c)) n
+  | Panic _ => None
+  end.
+Definition dbg_bad (c : case) :=
+  match start_state c with
+  | Ok sv0 => filter (fun x => let t := snd x in negb (t_sound t && t_exact t && t_iff t && t_content t && t_ill t))
+                     (walk_dbg (mk_cf (c_tables c)) sv0 (c_items c))
+  | Panic _ => []
+  end.
+
+(* development aid: how much the tie looked at - per case: modelled requests, observed panics among
+   them, `may_panic` true, `handle` panics, answers whose content was compared, by constructor of
+   the response (hints, nothing, symbols, definition, workspace symbols, completion, same, actions,
+   edit, text, locations, prepare, rename), modelled notifications *)
+Definition resp_no (v : response) : nat :=
+  match v with
+  | VHints _ => 0 | VNothing => 1 | VSymbols _ => 2 | VDefinition _ => 3 | VWorkspaceSymbols _ => 4
+  | VCompletion _ => 5 | VSame => 6 | VActions _ => 7 | VEdit _ => 8 | VText _ => 9 | VLocations _ => 10
+  | VPrepare _ => 11 | VRename _ => 12
+  end.
+Definition count {A} (f : A -> bool) (l : list A) : nat := length (filter f l).
+Definition stats (c : case) : list nat :=
+  match start_state c with
+  | Ok sv0 =>
+      let l := walk_dbg (mk_cf (c_tables c)) sv0 (c_items c) in
+      let q := flat_map (fun x => match snd (fst x) with Some mh => [(fst (fst x), mh)] | None => [] end) l in
+      [length l; length q; count (fun x => ro_panicked (fst x)) q; count (fun x => fst (snd x)) q;
+       count (fun x => negb (is_ok (snd (snd x)))) q;
+       count (fun x => match ro_req (fst x) with QReq r => exact_class (mk_cf []) r && fst (snd x) | _ => false end) q;
+       count (fun i => match i with INote _ _ (Some _) _ => true | _ => false end) (c_items c)]
+      ++ map (fun k => count (fun x => match snd (snd x) with Ok v => Nat.eqb (resp_no v) k && negb (ro_panicked (fst x)) | Panic _ => false end) q)
+             (seq 0 13)
+  | Panic _ => []
+  end.
+
+Local Open Scope N_scope.
+
+(* the tie stages:
+     4  (a) an observed panic is in `may_panic`
+     5  (b) on the exact classes `may_panic` is an observed panic
+     6  `handle` panics exactly for the requests whose handler panicked
+     7  (c) the content of the answers
+     8  the states: distinct keys at the start, Server::new and every didChange / didSave (panic or
+        not) as in the model, arenas below the cap
+     9  parameters that do not deserialise: an error answer, no panic *)
+Definition tie_stages (c : case) : list N :=
+  match start_state c with
+  | Panic _ => [8]
+  | Ok sv0 =>
+      let w := walk (mk_cf (c_tables c)) sv0 (c_items c) in
+      flag 4 (forallb t_sound (w_ties w)) ++ flag 5 (forallb t_exact (w_ties w)) ++
+      flag 6 (forallb t_iff (w_ties w)) ++ flag 7 (forallb t_content (w_ties w)) ++
+      flag 8 (distinct_namesb c && state_small sv0 && w_notes_ok w) ++ flag 9 (forallb t_ill (w_ties w))
+  end.
+
 Definition run_C12 (c : case) : verdict :=
   let msgs := case_msgs c in
   let obs := flat_map item_obs (c_items c) in
   let probes := flat_map item_probe (c_items c) in
-  let corr_with (wv : variant) :=
+  let corr_with (wv : Router.variant) :=
     match run apply_unit handler_obs Repaired wv (init msgs tt) (case_sched c) with
     | None => [0]
     | Some s =>
@@ -120,7 +451,7 @@ Definition run_C12 (c : case) : verdict :=
   let p1 := forallb req_ok obs && N.eqb (o_stray c) 0 in
   let p2 := forallb (fun ps => nlist_eqb (ro_resps (fst ps)) [1] && snd ps) probes in
   let p3 := N.eqb (o_loop c) (if c_exit c then 1 else 0) in
-  let p4 := forallb (fun i => match i with INote false true => false | _ => true end) (c_items c) in
+  let p4 := forallb (fun i => match i with INote false true _ _ => false | _ => true end) (c_items c) in
   let prop := flag 1 p1 ++ flag 2 p2 ++ flag 3 p3 ++ flag 4 p4 in
   let k1 := existsb cls_panic_lost obs in
   let k2 := existsb cls_command_unanswered obs in
@@ -130,8 +461,8 @@ Definition run_C12 (c : case) : verdict :=
     && N.eqb (o_stray c) 0 && p2 && p3 && p4 in
   let cls := if explained then (if k1 then [1] else []) ++ (if k2 then [2] else []) else [] in
   let nontriv := existsb (fun o => ro_panicked o || negb (nlist_eqb (ro_resps o) [1])) obs
-                 || existsb (fun i => match i with IBurst (_ :: _ :: _) _ _ => true | _ => false end) (c_items c) in
+                 || existsb (fun i => match i with IBurst (_ :: _ :: _) _ _ _ => true | _ => false end) (c_items c) in
   (* the expected behaviour is the repaired one; a case that falls in a known class must instead
      correspond to the as-found worker rule (the model reproduces the defect) *)
   let corr := match cls with [] => corr_with Repaired | _ => corr_with AsFound end in
-  V corr prop cls nontriv.
+  V (corr ++ tie_stages c) prop cls nontriv.
